@@ -73,6 +73,19 @@ class Emitter:
             ptype = BASE[d["dct"]["base"]]
             self.layer.dops.append(og.dop(oid, name, self.dct(d["dct"], key_ids), ptype=ptype))
             return oid
+        if k == "envdesc":
+            oid, name = self.uid("EDD")
+            ids = []
+            if d["hasall"]:
+                eid, ename = self.uid("ENV")
+                self.layer.env_datas.append(og.env_data(eid, ename, self.params(d["all"], f"{eid}.")))
+                ids.append(eid)
+            for per in d["per"]:
+                eid, ename = self.uid("ENV")
+                self.layer.env_datas.append(og.env_data(eid, ename, self.params(per["ps"], f"{eid}."), sorted(per["codes"])))
+                ids.append(eid)
+            self.layer.env_data_descs.append(og.env_data_desc(oid, name, d["ref"], ids))
+            return oid
         if k == "dtc":
             oid, name = self.uid("DTC")
             self.layer.dtc_dops.append(og.dtc_dop(oid, name, self.dct(d["dct"], key_ids),
@@ -246,6 +259,9 @@ def dop_py(d: Dict[str, Any], v: Dict[str, Any]) -> Any:
     if v["t"] == "bad":
         return BAD[v["name"]]
     k = d.get("k")
+    if k == "envdesc":
+        allps = list(d["all"]) + [p for per in d["per"] for p in per["ps"]]
+        return dict_py(allps, v) if v["t"] == "dict" else atom_py(v, None)
     if k == "dtc":
         return atom_py(v, d["dct"])
     if k == "simple":
@@ -406,6 +422,10 @@ def shape(ps: List[Dict[str, Any]]) -> Dict[str, Any]:
         elif k == "table":
             for r in d["rows"]:
                 walk_dop(r["st"])
+        elif k == "envdesc":
+            walk(d["all"])
+            for per in d["per"]:
+                walk(per["ps"])
         else:
             walk_dop(d["st"])
 
